@@ -31,6 +31,7 @@ def run(ctx):
     watchlib.selftest(ctx, groups, files, {r["tid"] for r in rej})
     # the repository's own test suites with the hooks on: every watch start, ring read and hand-off they cause is judged
     inmemlib.stage(ctx, "C12", ctx.tier)
+    watchlib.threaded(ctx, "C12", 150 if quick else 3000)
     ctx.assumptions += [
         "a foreign incarnation is a bookmark whose cookie was minted by another process (child run of the harness)",
         "tail requests are not combined with selectors (the statement does not say how they compose)",
